@@ -9,6 +9,7 @@ var checks = map[string]checkDef{
 	"C05": {Harness: "c05", Instrument: true},
 	"C07": {Harness: "c07", Instrument: true},
 	"C08": {Harness: "c08", Instrument: true},
+	"C09": {Harness: "c09", Instrument: true, Access: true},
 	"C10": {Harness: "c10", Instrument: true},
 	"C03": {Harness: "c03", Instrument: true},
 	"C04": {Harness: "c03", Instrument: true},
